@@ -16,10 +16,10 @@ func c01ints_ELEMTYPE(tag string, n int) []int {
 }
 
 // c01deep: the thorough tier's larger bound (extents up to 4, every root extent enumerated) is
-// spent on two element types; the other six instantiations of the same template keep the quick
+// spent on one element type (float64); the other seven instantiations of the same template keep the quick
 // bound there too (the full product ran past 100 minutes and 60 GB)
 func c01deep_ELEMTYPE() bool {
-	return vsym.Thorough() && ("ELEMTYPE" == "float64" || "ELEMTYPE" == "int32")
+	return vsym.Thorough() && "ELEMTYPE" == "float64"
 }
 
 func c01bound_ELEMTYPE() int {
